@@ -166,7 +166,7 @@ theorem bindL_lookup : ∀ (ds : List X.Decl) (n : String) (b : LBind), (bindL d
 
 def StmtSpec (G : GCtx) (fuel : Nat) : Prop :=
   ∀ pi ∈ G.procs, ∀ sp dep hi, G.lo ≤ sp → sp + G.S pi + pi.po + pi.p.formals.length ≤ G.spv + 1 → G.spv ≤ sp + dep * G.smax →
-    ∀ s σ, okS5 G.pk G.pnames G.xc.impure G.rho s = true →
+    ∀ s σ, okS5 G.pk G.pnames G.xc.impure G.rho (G.isLoc pi) s = true →
       ExecS (KOf G pi sp dep hi) (G.iEpi pi) (optStmt (annotS G.rho s)) σ (X.exec fuel G.xc s σ)
 
 theorem GCtx.OK.rho_none {G : GCtx} (ok : G.OK) (n : String) (h : ∀ w, G.xc.genv.lookup n ≠ some (.val w)) : G.rho n = none := by
@@ -177,7 +177,7 @@ theorem GCtx.OK.rho_none {G : GCtx} (ok : G.OK) (n : String) (h : ∀ w, G.xc.ge
 /-- What an activation's memory says about the global state. -/
 theorem Rep.toG {G : GCtx} (ok : G.OK) {pi : PInfo} (hpi : pi ∈ G.procs) {sp dep : Nat} {hi : Nat → Word}
     {σ : X.St} {mem : Mem} (h : Rep (KOf G pi sp dep hi) σ mem) : GRep G σ mem := by
-  refine ⟨?_, ?_, h.acells, h.consts⟩
+  refine ⟨?_, ?_, h.acells, h.consts, h.strs⟩
   · intro n w hv hg
     have hn := ok.genv_vars n hv
     have hl : σ.locals.lookup n = none := h.gvis n (List.mem_append_left _ hn)
@@ -197,9 +197,7 @@ theorem Rep.toG {G : GCtx} (ok : G.OK) {pi : PInfo} (hpi : pi ∈ G.procs) {sp d
       show X.readName G.xc σ n = _
       unfold X.readName
       rw [hl, hgv]
-    obtain ⟨id', a, hid, hloc, _, hm⟩ := h.aptr n _ hr
-    simp only [ArrRef.glob.injEq] at hid
-    subst hid
+    obtain ⟨a, hloc, _, hm⟩ := h.aptr n _ hr
     have : G.locOf pi sp n = some a := hloc
     rw [ok.gloc_ok pi hpi sp n hn] at this
     exact ⟨a, this, hm⟩
@@ -219,8 +217,8 @@ theorem po_pos (pi : PInfo) : 1 ≤ pi.po := by
 
 /-- After the prologue, the memory represents the callee's start state. -/
 theorem rep_callee {G : GCtx} (ok : G.OK) {pi : PInfo} (hpi : pi ∈ G.procs) (ws : List Val) (st : X.St)
-    (mem memP : Mem) (spc : Nat) (hg : GRep G st mem) (hokv : ∀ v ∈ ws, okV v = true)
-    (hargs : ∀ j (hj : j < ws.length), mem.read (spc + pi.po + j) = wordOf G.abase ws[j])
+    (mem memP : Mem) (spc : Nat) (hg : GRep G st mem)
+    (hargs : ∀ j (hj : j < ws.length), G.VRep ws[j] (mem.read (spc + pi.po + j)))
     (hlen : pi.p.formals.length = ws.length)
     (hS : G.S pi ≤ spc) (hP1 : memP.read 1 = BitVec.ofNat 32 (spc - G.S pi))
     (hrest : ∀ w, w ≠ 1 → w ≠ spc → memP.read w = mem.read w) (hlo : G.lo ≤ spc - G.S pi)
@@ -263,7 +261,8 @@ theorem rep_callee {G : GCtx} (ok : G.OK) {pi : PInfo} (hpi : pi ∈ G.procs) (w
           cases hvk : ws[k] with
           | arr r => rw [hvk] at hr; simp [bindB] at hr
           | int w0 =>
-            rw [hvk] at hr
+            have hv := hargs k hk
+            rw [hvk] at hr hv
             simp only [bindB, Except.ok.injEq, Val.int.injEq] at hr
             refine ⟨spc + pi.po + k, ?_, by omega, ?_⟩
             · show G.locOf pi (spc - G.S pi) n = _
@@ -271,8 +270,8 @@ theorem rep_callee {G : GCtx} (ok : G.OK) {pi : PInfo} (hpi : pi ∈ G.procs) (w
               congr 1
               omega
             · have hp := po_pos pi
-              rw [hrest _ (by omega) (by omega), hargs k hk, hvk]
-              exact hr
+              rw [hrest _ (by omega) (by omega)]
+              exact Eq.trans hv hr
         | none =>
           rw [hf] at hl'
           simp only [Option.none_or] at hl'
@@ -381,24 +380,21 @@ theorem rep_callee {G : GCtx} (ok : G.OK) {pi : PInfo} (hpi : pi ∈ G.procs) (w
           subst hb
           have hloc := ok.formal_loc pi hpi (spc - G.S pi) k f hfk
           rw [hfn] at hloc
-          have hok := hokv ws[k] (List.getElem_mem hk)
+          have hv := hargs k hk
           cases hvk : ws[k] with
           | int w0 => rw [hvk] at hr; simp [bindB] at hr
           | arr r0 =>
-            rw [hvk] at hr hok
+            rw [hvk] at hr hv
             simp only [bindB, Except.ok.injEq, Val.arr.injEq] at hr
             subst hr
-            cases r0 with
-            | lit l => simp [okV] at hok
-            | glob id =>
-              refine ⟨id, spc + pi.po + k, rfl, ?_, by omega, ?_⟩
-              · show G.locOf pi (spc - G.S pi) n = _
-                rw [hloc]
-                congr 1
-                omega
-              · have hp := po_pos pi
-                rw [hrest _ (by omega) (by omega), hargs k hk, hvk]
-                rfl
+            refine ⟨spc + pi.po + k, ?_, by omega, ?_⟩
+            · show G.locOf pi (spc - G.S pi) n = _
+              rw [hloc]
+              congr 1
+              omega
+            · have hp := po_pos pi
+              rw [hrest _ (by omega) (by omega)]
+              exact hv
         | none =>
           exfalso
           rw [hf] at hl'
@@ -429,7 +425,8 @@ theorem rep_callee {G : GCtx} (ok : G.OK) {pi : PInfo} (hpi : pi ∈ G.procs) (w
             have h2 := ok.gloc_ge n hn a ha
             have hlt := ok.gloc_lo n hn a ha
             have htop := ok.top
-            refine ⟨id, a, hr.symm, ?_, by unfold memWords at *; omega, ?_⟩
+            subst hr
+            refine ⟨a, ?_, by unfold memWords at *; omega, ?_⟩
             · show G.locOf pi (spc - G.S pi) n = _
               rw [ok.gloc_ok pi hpi _ n hn]; exact ha
             · rw [hrest _ (by omega) (by omega)]; exact hm
@@ -445,7 +442,18 @@ theorem rep_callee {G : GCtx} (ok : G.OK) {pi : PInfo} (hpi : pi ∈ G.procs) (w
       have := (ok.arr_hi id (by omega)).1
       show memP.read (G.abase id + idx) = w
       rw [hrest _ (by omega) (by omega)]
-      exact hv idx w hi }
+      exact hv idx w hi
+    strs := by
+      intro l bs ws j k hm hp hd idx hidx
+      obtain ⟨j', k', hd', _, h2, hlt⟩ := ok.str_ok l bs ws hm hp
+      have hj : j = j' := by
+        have e1 := labelIdx_of_nodup _ _ _ _ ok.nodup hd
+        have e2 := labelIdx_of_nodup _ _ _ _ ok.nodup hd'
+        rw [e1] at e2; simpa using e2
+      subst hj
+      show memP.read (G.env.addr j / 4 + idx) = _
+      rw [hrest _ (by omega) (by omega)]
+      exact hg.strs l bs ws j k hm hp hd idx hidx }
 
 /-! ### The callee -/
 
@@ -453,7 +461,7 @@ theorem GRep.frame {G : GCtx} (ok : G.OK) {σ σ' : X.St} {mem mem' : Mem} (h : 
     (hga : σ'.arrays = σ.arrays)
     (hm : ∀ a, 2 ≤ a → a < G.lo → mem'.read a = mem.read a)
     (hma : ∀ a, G.inArr a → mem'.read a = mem.read a) : GRep G σ' mem' := by
-  refine ⟨?_, ?_, ?_, ?_⟩
+  refine ⟨?_, ?_, ?_, ?_, ?_⟩
   · intro n w hv hl
     rw [hg] at hl
     have hn := ok.genv_vars n hv
@@ -476,9 +484,18 @@ theorem GRep.frame {G : GCtx} (ok : G.OK) {σ σ' : X.St} {mem mem' : Mem} (h : 
   · intro v l j k hmem hd
     rw [hm _ (ok.const_ge v l j k hmem hd) (ok.const_lo v l j k hmem hd)]
     exact h.consts v l j k hmem hd
+  · intro l bs ws j k hmem hp hd idx hidx
+    obtain ⟨j', k', hd', _, h2, hlt⟩ := ok.str_ok l bs ws hmem hp
+    have hj : j = j' := by
+      have e1 := labelIdx_of_nodup _ _ _ _ ok.nodup hd
+      have e2 := labelIdx_of_nodup _ _ _ _ ok.nodup hd'
+      rw [e1] at e2; simpa using e2
+    subst hj
+    rw [hm _ (by omega) (by omega)]
+    exact h.strs l bs ws j k hmem hp hd idx hidx
 
 theorem callee_correct {G : GCtx} (ok : G.OK) (fuel : Nat) (ih : StmtSpec G fuel) : CallSpec G (fuel + 1) := by
-  intro pi hpi ws st lnk b mem spc k kind n hg hm1 hokv hargs hstack htop hlo hk hlink
+  intro pi hpi ws st lnk b mem spc k kind n hg hm1 hargs hstack htop hlo hk hlink
   rw [callUser_succ]
   by_cases hd : st.depth ≥ X.maxDepth
   · rw [if_pos hd]; trivial
@@ -506,7 +523,7 @@ theorem callee_correct {G : GCtx} (ok : G.OK) (fuel : Nat) (ih : StmtSpec G fuel
   -- the prologue
   obtain ⟨a1, memP, stP, hP1, hPl, hPrest⟩ := exec_prologue G.env pi.kind pi.p.name (G.S pi) pi.iPro (ok.at_pro pi hpi)
     lnk b mem spc st.io hm1 (by unfold memWords at *; omega) (ok.code_lo _ hlo) (by omega) ok.code_1 hS
-  have rep := rep_callee ok hpi ws st mem memP spc hg hokv hargs hlen hS hP1 hPrest hlo' (by unfold memWords at *; omega) hspc
+  have rep := rep_callee ok hpi ws st mem memP spc hg hargs hlen hS hP1 hPrest hlo' (by unfold memWords at *; omega) hspc
   have wf := ok.wfs pi hpi (spc - G.S pi) (st.depth + 1) memP.read hlo' (by omega)
   have hbody := ih pi hpi (spc - G.S pi) (st.depth + 1) memP.read hlo' (by omega) (by omega) pi.p.body
     (calleeSt st pi ws) (ok.body_ok pi hpi) pi.gs1 pi.code pi.gs2 (G.iBody pi) a1 (BitVec.ofNat 32 spc) memP
